@@ -121,6 +121,26 @@ func Jobs(mode string, plan []LenPlan) []Job {
 			}
 		}
 	}
+	return append(out, ComboJobs(mode)...)
+}
+
+// ComboJobs (both tiers): every key combination of the three-key entities alone (fault-free
+// and with every single fault) and paired, in both orders, with each companion (fault-free);
+// every schedule, no bound.
+func ComboJobs(mode string) []Job {
+	var out []Job
+	for _, l := range KeyCombos {
+		c := Case{List: []string{l.Name}}
+		out = append(out, Job{c, Unbounded})
+		for _, f := range FaultPositions(mode, c.Reps()) {
+			f := f
+			out = append(out, Job{Case{List: c.List, Fault: &f}, Unbounded})
+		}
+		typ := l.Name[:strings.IndexByte(l.Name, ':')]
+		for _, o := range Companions[typ] {
+			out = append(out, Job{Case{List: []string{l.Name, o.Name}}, Unbounded}, Job{Case{List: []string{o.Name, l.Name}}, Unbounded})
+		}
+	}
 	return out
 }
 
